@@ -153,6 +153,7 @@ func runProperty(e *Engine, prop string, tier string, seed int) *CheckOutcome {
 	out := &CheckOutcome{Prop: prop}
 	funcs, lemmas := e.targetsFor(prop)
 	var obls []*Obligation
+	var decided []*OblResult
 	for _, key := range funcs {
 		r := e.VerifyFunc(key)
 		out.FnResults = append(out.FnResults, r)
@@ -163,6 +164,11 @@ func runProperty(e *Engine, prop string, tier string, seed int) *CheckOutcome {
 		for _, o := range r.Obls {
 			if hasProp(o.Props, prop) {
 				obls = append(obls, o)
+			}
+		}
+		for _, d := range r.Decided {
+			if d.obl != nil && hasProp(d.obl.Props, prop) {
+				decided = append(decided, d)
 			}
 		}
 	}
@@ -185,7 +191,7 @@ func runProperty(e *Engine, prop string, tier string, seed int) *CheckOutcome {
 			timeout = n
 		}
 	}
-	out.Results = solveAll(obls, timeout, seed, tier == "thorough", 5)
+	out.Results = append(solveAll(obls, timeout, seed, tier == "thorough", 5), decided...)
 	out.Wall = time.Since(t0).Seconds()
 	return out
 }
